@@ -678,6 +678,8 @@ void FnEmitter::emit_inst(const Instruction &I)
     case Instruction::BitCast:
       if (st->isPointerTy() && dt->isPointerTy())
         out << ind << lhs() << "(" << D << ")" << a << ";\n";
+      else if (!st->isVectorTy() && !dt->isVectorTy() && C.DL.getTypeStoreSize(st) == C.DL.getTypeStoreSize(dt))
+        out << ind << "{ " << C.ty(st) << " vf_bc = " << a << "; memcpy(&" << names[&I] << ", &vf_bc, sizeof vf_bc); }\n"; // same-size scalar reinterpretation (int <-> float)
       else
         die("non-pointer bitcast");
       break;
@@ -744,6 +746,17 @@ void FnEmitter::emit_inst(const Instruction &I)
   if (auto *CB = dyn_cast<CallBase>(&I))
   {
     const Function *callee = CB->getCalledFunction();
+    bool castcall = false;
+    if (!callee)
+    {
+      // call through a constant bitcast of a function (e.g. allocator dtor called on a derived-class pointer): call it directly
+      if (auto *f2 = dyn_cast<Function>(CB->getCalledOperand()->stripPointerCasts()))
+        if (f2->arg_size() == CB->arg_size() && !f2->isVarArg() && !f2->isIntrinsic())
+        {
+          callee = f2;
+          castcall = true;
+        }
+    }
     std::string cn = callee ? callee->getName().str() : "";
     if (callee && callee->isIntrinsic())
     {
@@ -875,7 +888,7 @@ void FnEmitter::emit_inst(const Instruction &I)
       callexpr = "((" + C.ty(ft) + "*)" + val(CB->getCalledOperand()) + ")";
     }
     std::string args;
-    FunctionType *ft = CB->getFunctionType();
+    FunctionType *ft = castcall ? callee->getFunctionType() : CB->getFunctionType();
     for (unsigned i = 0; i < CB->arg_size(); ++i)
     {
       if (callexpr == "vf_delete" && i > 0)
@@ -885,7 +898,12 @@ void FnEmitter::emit_inst(const Instruction &I)
         a = "(" + C.ty(ft->getParamType(i)) + ")" + a;
       args += (i ? ", " : "") + a;
     }
-    out << ind << lhs() << callexpr << "(" << args << ");\n";
+    if (castcall && !I.getType()->isVoidTy())
+      out << ind << lhs() << "(" << C.ty(I.getType()) << ")" << callexpr << "(" << args << ");\n";
+    else if (castcall)
+      out << ind << callexpr << "(" << args << ");\n";
+    else
+      out << ind << lhs() << callexpr << "(" << args << ");\n";
     if (auto *IV = dyn_cast<InvokeInst>(&I))
       jump(I.getParent(), IV->getNormalDest(), ind);
     return;
